@@ -135,6 +135,7 @@ func checkC18(p *Prog, res *Result, tier string) {
 	res.rule("C18-R3", "every call of Backend/BackendShim Get, List, Count, GetPartitions, ListByStream in the server layer is dominated by SyncReadRevision()==nil", 10)
 	res.rule("C18-R4", "SyncReadRevision returns nil only on the leader branch or after SetCurrentRevision(revision fetched from the leader with a nil error)", 2)
 	res.rule("C18-R7", "at most one node passes the IsLeader() guards at a time only while the lock is taken by at most one candidate per observed record (C14-R2/R3/R6)", 3)
+	res.rule("C18-R8", "the revision a follower adopts from the leader sticks: the committed counter is raised by a guarded, retried compare-and-swap (C02-R1), so of two overlapping syncs the larger one wins", 2)
 	res.rule("C18-R6", "no validating step of the leader fetch fails silently: the error of the request and of decoding the answer is returned, or some other non-nil error is (a step whose data is handed to a later checked step, such as reading the body, is validated by that step)", 2)
 	res.rule("C18-R5", "the revision publisher returns the backend's committed revision only under IsLeader()==true and otherwise answers with a non-2xx status first (or with a constant body the follower cannot decode); the fetch returns success only for status 200", 3)
 
@@ -264,6 +265,16 @@ func checkC18(p *Prog, res *Result, tier string) {
 
 	// R5: publisher and fetch
 	checkPublisher(p, r, lr, res)
+	// ---- R8: the revision a follower adopts is not lost to a concurrent adoption (C02-R1, committed counter) ----
+	{
+		sub2 := newResult("C02")
+		checkTSOCounters(p, r, sub2, "C02-R1")
+		for _, o := range sub2.Obls {
+			if strings.Contains(o.Construct, "ommitted") {
+				res.add("C18-R8", o.Rule+" "+o.Construct, o.Status, o.Pos, o.Detail)
+			}
+		}
+	}
 	// ---- R7: one holder of the lock (C14) ----
 	for _, o := range p.subResult("C14", tier).Obls {
 		if o.Rule == "C14-R2" || o.Rule == "C14-R3" || o.Rule == "C14-R6" {
